@@ -51,7 +51,13 @@ open J5V.Conc.Sched J5V.Conc.Cache
 /-- **Publication.** Static discipline: every write under the write lock of `l`, every read of a
 location outside `X` under the read or write lock, `l` flat. Rule of the execution: a location of
 `X` is read by another thread only after that thread acquired `l` (in either mode) after the
-write. Then no two conflicting accesses are unordered by happens-before. -/
+write. Then no two conflicting accesses are unordered by happens-before.
+**Given `PubOrdered`**: the rule of the execution is a hypothesis (`hpub`), it is not derived here for
+any program — for the real code its static half is the extractor's table (`C10_code_published_dominated`:
+every published read is dominated by a call through the lock), its dynamic half lives on the cache model
+(`C10_no_unlinked_visible`, `C10_published_frozen`); the two halves are not connected by a theorem.
+A program + schedule for which `PubOrdered` is *proved* (and one for which it fails and a race
+follows) is `pubProg` / `pubGood` / `pubBad` below. -/
 theorem C10_hb_publication (wv : WriteFn) (l : Nat) (X : Nat → Bool) (p : Prog) (h : PubGuardedBy l X p)
     (sched : List Nat) (hpub : PubOrdered l X (trace wv p sched)) : ¬ RaceHB (trace wv p sched) :=
   hb_race_free wv l X p h sched hpub
@@ -221,7 +227,10 @@ theorem C10_published_frozen (G : Graph) (c : Cache) (hc : Reachable G c) (ds : 
   | cons d ds ih =>
     exact ih _ (Reachable.step c d hc) ((schemaOf_spec G c (reachable_inv G c hc) d).2.2.2.1 m e h)
 
-/-- The recursion bound of the model is never the reason for a failure. -/
+/-- For a request whose closure builds (`GoodFrom G n`: every schema it reaches is well formed) the
+recursion bound of the model is not the reason for a failure: the build with fuel `G.length + 1`
+succeeds. (For a closure that does not build the answer is `.err` whatever the fuel, by
+`schemaOf_spec`: `.ok ↔ GoodFrom`; the theorem says nothing more about that case.) -/
 theorem C10_fuel_never_exhausted (G : Graph) (c : Cache) (n : Nat) (hg : GoodFrom G n) :
     (buildNode G (G.length + 1) c n).2 = true :=
   buildNode_fuel_enough G _ c n (Nat.lt_succ_of_le (unreg_le G c)) hg
@@ -371,7 +380,10 @@ theorem C10_code_thread_disciplined (X : Nat → Bool) (sites : List (Access × 
 /-- Any number of goroutines, each performing any sequence of the extracted access sites on any
 concrete locations, where the sites the table lists outside the lock (the published reads) touch
 only locations of `X`: under any schedule whose execution obeys the publication rule for `X`, no
-happens-before race. -/
+happens-before race. **Conditional on `PubOrdered`** (hypothesis `hpub`, as in `C10_hb_publication`:
+assumed, not derived from the code; the code side of it is the trusted extractor's boolean
+`publishedReads.all (·.dominated)`), so this is the partial form of "the code is HB-race free"; the
+unconditional instantiation is `C10_code_race_free` (protected sites only). -/
 theorem C10_code_hb_race_free (wv : WriteFn) (X : Nat → Bool) (gs : List (List (Access × Nat)))
     (h : ∀ g ∈ gs, ∀ s ∈ g, s.1 ∈ accesses ∧ (isRW s.1.guard = false → X s.2 = true)) (sched : List Nat)
     (hpub : PubOrdered 0 X (trace wv (gs.map codeThread) sched)) :
@@ -587,7 +599,11 @@ example : GoodFrom demo 2 := by
 /-! ### the table meets the hypotheses of the instantiation -/
 
 /-- every write site of the table on location 3, every published-read site on location 7 (which
-is in `X`): the hypothesis of `C10_code_hb_race_free` holds, with sites inside and outside the lock -/
+is in `X`): the hypothesis `h` of `C10_code_hb_race_free` holds, with sites inside and outside the
+lock. This instance has no conflicting accesses (writes and reads are on different locations), so it
+only shows that `h` is satisfiable by the table; the witness with a real write / read conflict on a
+published location, `PubOrdered` proved and violated, is `pubProg` with `pubGood` / `pubBad` above
+(`C10_publication_violated_races`). -/
 example :
     let gs : List (List (Access × Nat)) :=
       [(accesses.filter (·.write)).map (·, 3), (accesses.filter (fun a => !isRW a.guard)).map (·, 7)]
@@ -680,7 +696,16 @@ another one is inside `Schema` is blocked), and so is the mid-build state of the
 (`midBuild`) between the moment a call takes the mutex and the moment it finishes. -/
 
 open J5V.Conc.CacheSched in
-/-- **Concurrent = sequential = alone**, for every descriptor graph (recursive types, failing
+/-- **Concurrent = sequential = alone, on the coarse machine.** Scope: in `CacheSched.cstep` a call is two
+atomic steps (take the mutex; apply `schemaOf` and release) and a goroutine that does not own the
+mutex cannot touch the maps — mutual exclusion and the atomicity of the critical section are *built
+into this machine*, so that the interleaving is equivalent to a sequential order holds by
+construction; what the theorem adds is the composition with the cache algorithm (`schemaOf_spec`,
+i.e. `C10_cache_transparent`): whatever that order is, every answer is the answer alone. No theorem
+connects the traces of the fine-grained `Sched` model, or the E7 tables of the code, to `schemaOf`:
+that the real `Schema` behaves like one `cstep` pair is argued from `C10_code_guarded` /
+`C10_code_locksites` (E7, `decide`) and `C10_serialisable` (Sched), in prose. "Every schedule" below
+means every schedule *of the coarse machine*. Statement: for every descriptor graph (recursive types, failing
 builds), every reachable start cache (fresh or warm), every number of goroutines with any request
 lists, every schedule (overlapping first use of one type included: the second caller blocks).
 With `s` the state after the schedule:
@@ -748,7 +773,11 @@ theorem C10_unlocked_lookup_differs :
   decide
 
 open J5V.Conc.CacheSched in
-/-- **No deadlock, no lost call** in the same machine, in every state any schedule reaches:
+/-- **No deadlock, no lost call** in the same coarse machine (one mutex, released by the step that
+finishes the call: such a machine cannot deadlock by design — the theorem records that, plus "the
+owner always has work" and "quiescent ⇒ everything answered"; deadlock freedom of the lock *usage*
+in the fine-grained model is `C10_no_deadlock`, of the code `C10_code_locksites`), in every state any
+schedule of the coarse machine reaches:
 (1) while some goroutine has a request left, some goroutine can move (the owner of the mutex, else
     any goroutine with a request), and a goroutine that can move makes progress: its step starts or
     finishes a call (`progress` = 2 × finished calls + 1 for a call in progress grows by one);
